@@ -465,18 +465,7 @@ class Analysis:
             self.ev(n.get("cond"), frame)
             a, b = self.evp(n.get("then"), frame), self.evp(n.get("else"), frame)
             if isinstance(a, RV) and isinstance(b, RV):
-                # either of two rulers: what both guarantee is the dimension of value*scale per unit (one may be normalised with a
-                # dimensioned scale, the other in physical units with scale 1)
-                a, b = a.find(), b.find()
-                if a is b:
-                    return a
-                c = RV(self, "either ruler")
-                for u in set(a.scales) | set(b.scales):
-                    c.scales[u] = self.S.fresh("scale %s" % u)
-                    for r_ in (a, b):
-                        if u in r_.scales:
-                            self.eq(c.val + c.scales[u], r_.val + r_.scales[u], n, "value times scale \"%s\" has one dimension in both rulers" % u)
-                return c
+                return self.either_ruler(a, b, n)
             self.eq(a, b, n, "both branches of ?: have one dimension")
             return a if a is not None else b
         if k == "InitListExpr":
@@ -535,6 +524,20 @@ class Analysis:
             if items and all(lit(i_) for i_ in items):
                 return self.S.fresh("literal aggregate")      # e.g. std::complex<float>(306.3, 176.9) naming a constant
         return self.ev(n, frame)
+
+    def either_ruler(self, a, b, n):
+        """either of two rulers: what both guarantee is the dimension of value*scale per unit (one may be normalised with a dimensioned
+        scale, the other in physical units with scale 1)"""
+        a, b = a.find(), b.find()
+        if a is b:
+            return a
+        c = RV(self, "either ruler")
+        for u in set(a.scales) | set(b.scales):
+            c.scales[u] = self.S.fresh("scale %s" % u)
+            for r_ in (a, b):
+                if u in r_.scales:
+                    self.eq(c.val + c.scales[u], r_.val + r_.scales[u], n, "value times scale \"%s\" has one dimension in both rulers" % u)
+        return c
 
     def index(self, n, frame):
         v = self.ev(n, frame)
@@ -602,6 +605,19 @@ class Analysis:
         return None
 
     def assign(self, lnode, a, b, n, frame):
+        dl = A.declref(lnode)
+        if isinstance(b, RV) and dl is not None and dl.get("dkind") == "Var" and dl.get("local", True) and A.strip(lnode).get("k") == "DeclRefExpr":
+            # a local that is pointed at one ruler or another (if/else chains): it stands for either of them
+            key = self.key_of_decl(dl, frame)
+            cur = self.env.get(key)
+            if isinstance(cur, RV) and not cur.find().scales and cur.find() is not b.find() and getattr(cur.find(), "untouched", True) and key not in getattr(self, "_ruler_assigned", set()):
+                self.env[key] = b
+            elif isinstance(cur, RV):
+                self.env[key] = self.either_ruler(cur, b, n)
+            else:
+                self.env[key] = b
+            self.__dict__.setdefault("_ruler_assigned", set()).add(key)
+            return
         if isinstance(a, (Lin, RV)) and isinstance(b, (Lin, RV)):
             self.eq(a, b, n, "assignment keeps the dimension")
         d = A.declref(lnode)
